@@ -14,7 +14,7 @@
    below), the geometric correctness of ray casting (holes_assigned) and the composition
    build_polygon_recovers. *)
 From Coq Require Import ZArith List Bool Permutation Lia.
-From Verif Require Import Geo.Model Geo.JoinProofs Geo.Conserve Geo.Closes Geo.Cut Geo.Orient Geo.Sources Geo.Holes Geo.Annotate Geo.Edges C16.Spec C16.RayQ.
+From Verif Require Import Geo.Model Geo.JoinProofs Geo.Conserve Geo.Closes Geo.Cut Geo.Orient Geo.Sources Geo.Holes Geo.Annotate Geo.Edges Geo.Rings C16.Spec C16.RayQ.
 Import ListNotations.
 Open Scope Z_scope.
 
@@ -74,21 +74,35 @@ Print Assumptions C16_join_closes.
 Theorem C16_eulerianb_sound : forall segs, eulerianb segs = true -> eulerian segs.
 Proof. exact eulerianb_sound. Qed.
 
-(* 3b. join_closes_rings.  FULL STATEMENT (not proved):
-       forall rings segs chains, is_cut rings segs -> rings pairwise vertex-disjoint, each with
-       distinct vertices -> join segs = JoinOk chains ->
-       exists a bijection chains <-> rings such that the line of each chain is its ring, from
-       some start vertex, in one of the two directions (so: exactly that ring's segments in
-       cyclic order).
-       PROVED (partial): for EVERY cut of closed rings into consecutive pieces, every subset of
-       reversed pieces and every order, every chain is closed; together with 2/2b/2c each chain
-       is a closed walk through whole pieces, every piece used exactly once.
-       MISSING: that such a closed walk runs through one ring once (needs vertex-disjointness;
-       a degree-2 graph argument over the greedy loop). *)
-Theorem C16_join_closes_rings_partial : forall rings segs chains,
+(* 3b. join_closes_rings (FULL).  rs: the rings as lists of pairwise distinct vertices (first
+       vertex not repeated; all vertices of the scene distinct; >= 3 vertices each), each written
+       from one of its cut vertices; segs: ANY cut of the closed rings into consecutive pieces
+       ([cut_of]), ANY subset of pieces reversed, in ANY order ([is_cut]).  Then the chains of
+       join are in bijection with the rings and the line of each chain is exactly its ring:
+       closed, from some start vertex, forwards or backwards ([is_ring_line]). *)
+Theorem C16_join_closes_rings : forall (rs : list line) segs chains,
+  NoDup (concat rs) -> Forall (fun r => (3 <= length r)%nat) rs ->
+  is_cut (map Rings.close_ring rs) segs -> join segs = JoinOk chains ->
+  exists rs', Permutation rs' rs /\
+              Forall2 (fun r c => is_ring_line r (ms_line c)) rs' chains.
+Proof. exact join_closes_rings. Qed.
+Print Assumptions C16_join_closes_rings.
+
+(* the graph fact behind it: closed walks whose undirected edges are, together, exactly the edges
+   of vertex-disjoint simple rings are those rings *)
+Theorem C16_trails_are_rings : forall (Ls : list line) (R : list line),
+  NoDup (concat R) -> Forall (fun r => (3 <= length r)%nat) R ->
+  Forall (fun L => (2 <= length L)%nat /\ lfirst L = llast L) Ls ->
+  Permutation (map uedge (flat_map line_edges Ls)) (map uedge (flat_map ringE R)) ->
+  exists R', Permutation R' R /\ Forall2 is_ring_line R' Ls.
+Proof. exact trails_are_rings. Qed.
+Print Assumptions C16_trails_are_rings.
+
+(* closedness alone needs no distinctness of vertices *)
+Theorem C16_join_closes_cut : forall rings segs chains,
   is_cut rings segs -> join segs = JoinOk chains -> Forall closed chains.
 Proof. exact join_closes_cut. Qed.
-Print Assumptions C16_join_closes_rings_partial.
+Print Assumptions C16_join_closes_cut.
 
 (* 4. ring_orientation: on a closed chain of non-zero area, Ring(o) is the chain's line or its
       reverse, closed, and wound as o, when every member annotation that is present is truthful
@@ -225,7 +239,7 @@ Example ex_join : join ex_segs =
 Proof. vm_compute. reflexivity. Qed.
 
 Example ex_closed : Forall closed [[mkSeg 0 0 false [(1,5)]; mkSeg 2 0 false [(5,5); (5,1); (1,1)]; mkSeg 1 0 true [(1,5)]]].
-Proof. exact (C16_join_closes_rings_partial _ _ _ ex_is_cut ex_join). Qed.
+Proof. exact (C16_join_closes_cut _ _ _ ex_is_cut ex_join). Qed.
 
 Example ex_eulerianb : eulerianb ex_segs = true.
 Proof. vm_compute. reflexivity. Qed.
@@ -282,3 +296,15 @@ Definition ex_members : list member :=
 Example ex_annotate_orientation :
   annotate_orientation ex_members ex_ways = Some ([-1; 1; -1], false).
 Proof. vm_compute. reflexivity. Qed.
+
+(* join_closes_rings on the cut square: hypotheses hold, the conclusion names the ring *)
+Example ex_rings_hyp : NoDup (concat [[(1,1); (5,1); (5,5); (1,5)]]) /\
+  Forall (fun r : line => (3 <= length r)%nat) [[(1,1); (5,1); (5,5); (1,5)]] /\
+  is_cut (map Rings.close_ring [[(1,1); (5,1); (5,5); (1,5)]]) ex_segs.
+Proof.
+  split; [|split; [repeat constructor|exact ex_is_cut]].
+  simpl. repeat constructor; simpl; intuition congruence.
+Qed.
+Example ex_ring_line : is_ring_line [(1,1); (5,1); (5,5); (1,5)]
+  (ms_line [mkSeg 0 0 false [(1,5)]; mkSeg 2 0 false [(5,5); (5,1); (1,1)]; mkSeg 1 0 true [(1,5)]]).
+Proof. exists 3%nat. split; [simpl; lia|right; reflexivity]. Qed.
